@@ -7,6 +7,9 @@ props = [json.loads(l) for l in open(os.path.join(ROOT, "properties.jsonl"))]
 TRUST = ("pyvc's encoding of Python semantics and its library models (struct, enum, dataclasses, containers, asyncio loop model), "
          "z3/cvc5; spec functions in contracts/ are the oracle (written from the property statement)")
 
+LOOP = ("; event-loop model contracts/looplib.py trusted (FIFO call_soon, timers fire once at their deadline unless cancelled); "
+        "induction over the history is the trusted rule applied to the proved step")
+
 CLAIMED = {
     "C19": dict(
         category="proof",
